@@ -510,7 +510,7 @@ def mode_bag_vs_list(p):
             Xs, ys = [X[i] for i in perm], [y[i] for i in perm]
             ref = train(kind, C, D, rU, rV, Xs, ys, 7)
             for nparts in sorted(set([1, 2, 3, len(Xs)])):
-                for sched in (("synchronous",) if TIER != "thorough" else ("synchronous", "processes")):
+                for sched in (("synchronous",) if TIER != "thorough" else ("synchronous", serialising_get)):      # in-process pickling of every task: worker PROCESSES would not see the exact-arithmetic proxy
                     with dask.config.set(scheduler=sched):
                         bag = dask.bag.from_sequence(Xs, npartitions=min(nparts, len(Xs)))
                         ybag = dask.bag.from_sequence(ys, npartitions=min(nparts, len(Xs)))
